@@ -65,9 +65,9 @@ CHECKS['C07'] = ('proof', 'Lookup = declarations on the scope chain; declaration
                  'partial: extern data values are opaque C++ text (whether it denotes the same C++ type in another namespace is outside the model). Repaired defect F6.', '§5 C07')
 CHECKS['C08'] = ('proof', 'The pipeline model is a function without hash seed or state; theorem: the output is invariant under every listing order of every '
                  'name set of the configuration (membership/emptiness/sorting only; sorted permutations are unique) (Properties/C08.v). Correspondence: every '
-                 'case built under several PYTHONHASHSEEDs with shuffled set insertion orders, compared across seeds, with MD5(UTF-8) and with the model; targeted '
-                 'search for seed dependence when the correspondence breaks.',
-                 'trusted: hashlib.md5 in the harness as reference for the hash clause (no Gallina MD5 yet: that clause is checked, not proved). Repaired defect F3.', '§5 C08')
+                 'case built under several PYTHONHASHSEEDs with shuffled set insertion orders, compared across seeds and build orders (processes build the cases in opposite orders), with the model, and every content hash with the '
+                 'Gallina MD5/UTF-8 model (Base/Md5.v, validated against the RFC 1321 test suite inside Coq); targeted search for seed dependence when the correspondence breaks.',
+                 'the hash clause holds in the model by definition (g_hash = hex(md5(utf8 contents))); that the implementation computes the same function is correspondence. Repaired defect F3.', '§5 C08')
 CHECKS['C12'] = ('proof', 'Builder as a state machine over its recipe state: every build of any history equals the build from a fresh state; support files = '
                  'stand-alone generation (Properties/C12.v). Correspondence: build histories in one interpreter over shared parsed models with deep snapshots of '
                  'model and configuration before/after each build, results compared with the stateless model.',
